@@ -1,5 +1,5 @@
 /-
-C05 — property theorems (theorems only; helper lemmas live in SwV/Lemmas/C05{,b,c,d,e}.lean).
+C05 — property theorems (theorems only; helper lemmas live in SwV/Lemmas/C05{,b,c,d,e,f}.lean).
 They are about the model in SwV/Model/C05.lean, which the correspondence check compares with
 the real needle_map.CompactMap / storage needle mappers on every call (returned values,
 AscendingVisit contents, all counters), under both offset widths.
@@ -12,6 +12,7 @@ import SwV.Lemmas.C05b
 import SwV.Lemmas.C05c
 import SwV.Lemmas.C05d
 import SwV.Lemmas.C05e
+import SwV.Lemmas.C05f
 
 namespace SwV.Props.C05
 open SwV.Model.C05 SwV.Spec.C05 SwV.Lemmas.C05
@@ -188,6 +189,34 @@ theorem reload_lookups_partial (batch : Nat) (ops : List MOp) (h : reloadOkFrom 
 /-- non-vacuity: puts (appended, out of order into overflow, overwritten) and deletes of live keys -/
 example : reloadOkFrom 2 {} [] [.put 3 10 100, .put 9 11 200, .put 5 12 300, .put 3 13 400, .del 5 14,
     .put 5 15 500, .del 9 16, .put 100 17 600] = true := by decide
+
+/-! ### the same two theorems under conditions on the op list ALONE (no replay of the model)
+
+4-byte offsets (`OffsetHigher` = 0 in every Set, i.e. offsets < 2^32) and all keys of the sequence
+inside one window `[lo, lo + 2^32)` imply admissibility (`admFrom_of_plain`): no section start can
+then be 2^32 or more below a key, and every stored high byte is 0.  (Weaker than the theorems above,
+which also cover keys arbitrarily far apart and 5-byte offsets outside the stale-byte case.) -/
+
+theorem compactMap_refines_map_window_partial (batch lo : Nat) (pre : List Op) (op : Op)
+    (h : (pre ++ [op]).all (plainOp lo) = true) :
+    Abs (execL batch [] pre) (execR [] pre) ∧
+    resOk batch (execL batch [] pre) (execR [] pre) op ∧
+    Abs (applyL batch (execL batch [] pre) op) (applyR (execR [] pre) op) :=
+  run_results batch pre op (admFrom_of_plain lo batch _ [] (by intro s hs; cases hs) h)
+
+example : ([.set 7 1 0 11, .set 3 2 0 22, .del 3, .del 3, .get 3, .get 4294967298] : List Op).all (plainOp 3) = true := by
+  decide
+
+/-- `plainMFrom lo [] ops`: every put has size > 0 and 0 < offset < 2^32, all keys lie in
+    `[lo, lo + 2^32)`, and every delete addresses a key that is live in the REFERENCE map at that
+    point (last operation on it was a put) — computed from the op list and the Spec's reference only -/
+theorem reload_counters_window_partial (batch lo : Nat) (ops : List MOp) (h : plainMFrom lo [] ops = true) :
+    let online := ops.foldl (applyM batch) {}
+    loadMem batch online.idx.reverse = (online.cm, online.met) :=
+  reload_counters_partial batch ops (reloadOk_of_plain lo batch ops {} [] (by intro s hs; cases hs) h)
+
+example : plainMFrom 0 [] [.put 3 10 100, .put 9 11 200, .put 5 12 300, .put 3 13 400, .del 5 14,
+    .put 5 15 500, .del 9 16] = true := by decide
 
 /-! ### the recorded findings, on concrete witnesses (`batch` = 2 makes the section full after two entries: same overflow code path) -/
 
